@@ -16,5 +16,11 @@ for path in sorted(glob.glob(os.path.join(ROOT, "design_parts", "*.findings.json
         else:
             k["findings"].append(f)
             have[sig(f)] = f
+for f in k["findings"]:
+    # the one-line form of the interface: a fixed entry suppresses nothing, a known entry is printed by its check
+    if f.get("status") == "fixed":
+        f["line"] = "fixed: property=%s %s %s" % (f["property"], f.get("commit", "?"), f["what"])
+    else:
+        f["line"] = "KNOWN-FINDING: property=%s %s" % (f["property"], f["what"])
 json.dump(k, open(os.path.join(ROOT, "known_findings.json"), "w"), indent=1)
 print(len(k["findings"]), "findings")
